@@ -31,6 +31,9 @@ RUN_ENV = {
 }
 
 MINIVEC = core.VERIF / "harness" / "minivec.hpp"
+# stand-in for the CETL headers named by the cetl++14-17 shorthand (the library itself is not available offline)
+STANDIN = core.VERIF / "harness" / "standin"
+ALLOC_STDS = ("cetl++14-17",)  # flavours whose allocator is not default constructible
 
 
 class LabError(core.HarnessError):
@@ -65,6 +68,58 @@ class Lab:
     def close(self):
         if self.own:
             shutil.rmtree(self.dir, ignore_errors=True)
+
+    # ----------------------------------------------------------------------------------------------------- allocator flavours
+    def alloc_excluded(self) -> typing.Set[int]:
+        """
+        Codec types that cannot be part of a harness for a flavour whose allocator is NOT default constructible (known
+        findings of C06: unions that own a composite / variable-length option and fixed arrays of composites do not compile
+        there), closed over dependencies: a header that includes an excluded header is excluded as well.
+        """
+
+        def ndc(t) -> bool:  # not default constructible in such a flavour
+            if isinstance(t, pydsdl.CompositeType):
+                return True
+            if isinstance(t, pydsdl.VariableLengthArrayType):
+                return True
+            if isinstance(t, pydsdl.FixedLengthArrayType):
+                return ndc(t.element_type)
+            return False
+
+        def deps(t):
+            if isinstance(t, pydsdl.ArrayType):
+                return deps(t.element_type)
+            if isinstance(t, pydsdl.CompositeType):
+                return [inner(t)]
+            return []
+
+        memo: typing.Dict[int, bool] = {}
+
+        def bad(t) -> bool:
+            t = inner(t)
+            if id(t) in memo:
+                return memo[id(t)]
+            memo[id(t)] = False
+            r = False
+            if isinstance(t, pydsdl.UnionType):
+                r = any(ndc(f.data_type) for f in t.fields)
+            else:
+                r = any(isinstance(f.data_type, pydsdl.FixedLengthArrayType) and ndc(f.data_type.element_type) for f in t.fields_except_padding)
+            r = r or any(bad(d) for f in t.fields_except_padding for d in deps(f.data_type))
+            memo[id(t)] = r
+            return r
+
+        out = set()
+        for i, ct in enumerate(self.ctypes):
+            t = inner(ct)
+            svc_bad = False
+            if t.has_parent_service:
+                # both halves live in one header
+                svc = emit_c.service_of(t, self.top)
+                svc_bad = svc is not None and (bad(svc.request_type) or bad(svc.response_type))
+            if bad(ct) or svc_bad:
+                out.add(i)
+        return out
 
     # ----------------------------------------------------------------------------------------------------- generation
     def generate(self, key: str) -> pathlib.Path:
@@ -108,6 +163,20 @@ class Lab:
             out.append("/".join(comps[:-1] + [f"{comps[-1]}_{t.version.major}_{t.version.minor}{ext}"]))
         return out
 
+    def codec_header_paths(self, ext: str, skip: typing.Set[int]) -> typing.List[str]:
+        """Headers of the codec types that are not skipped (a service's two halves share one header)."""
+        out: typing.List[str] = []
+        for i, ct in enumerate(self.ctypes):
+            if i in skip:
+                continue
+            t = inner(ct)
+            owner = emit_c.service_of(t, self.top) if t.has_parent_service else t
+            comps = owner.full_name.split(".")
+            p = "/".join(comps[:-1] + [f"{comps[-1]}_{owner.version.major}_{owner.version.minor}{ext}"])
+            if p not in out:
+                out.append(p)
+        return out
+
     # ----------------------------------------------------------------------------------------------------- build
     def build(self, key: str, cap_overrides: typing.Optional[typing.Dict[str, int]] = None) -> typing.Any:
         bkey = key + (json.dumps(cap_overrides, sort_keys=True) if cap_overrides else "")
@@ -133,10 +202,14 @@ class Lab:
                 cmd.insert(1, f"-D{macro}={val}")
         else:
             src = self.dir / f"h_{tag}.cpp"
-            src.write_text(emit_cpp.CppEmitter(self.ctypes, self.top).emit(self.header_paths(".hpp"), MINIVEC_OVERLOADS if o.get("container") == "minivec" else ""))
+            if o["std"] in ALLOC_STDS:
+                skip = self.alloc_excluded()
+                src.write_text(emit_cpp.CppEmitter(self.ctypes, self.top, alloc=True, skip=skip).emit(self.codec_header_paths(".hpp", skip), CETL_OVERLOADS))
+            else:
+                src.write_text(emit_cpp.CppEmitter(self.ctypes, self.top).emit(self.header_paths(".hpp"), MINIVEC_OVERLOADS if o.get("container") == "minivec" else ""))
             exe = self.dir / f"h_{tag}"
-            std = {"c++17-pmr": "c++17"}.get(o["std"], o["std"])
-            cmd = [CLANGXX, f"-std={std}", *flags, "-Wall", "-Wno-unused-function", "-Wno-deprecated-declarations", "-I", str(gen), str(src), "-o", str(exe)]
+            std = {"c++17-pmr": "c++17", "cetl++14-17": "c++14"}.get(o["std"], o["std"])
+            cmd = [CLANGXX, f"-std={std}", *flags, "-Wall", "-Wno-unused-function", "-Wno-deprecated-declarations", "-I", str(gen), *(["-isystem", str(STANDIN)] if o["std"] in ALLOC_STDS else []), str(src), "-o", str(exe)]
             if o["asserts"]:
                 cmd.insert(1, "-DVF_ASSERTS")
         p = subprocess.run(cmd, capture_output=True, text=True)
@@ -223,6 +296,15 @@ def py_schema(t) -> dict:
         ],
     }
 
+
+CETL_OVERLOADS = r"""
+template <class T, class A> typename std::enable_if<!vf_has_allocator_type<T>::value>::type vf_append(cetl::VariableLengthArray<T, A>& v) { v.emplace_back(); }
+template <class T, class A> typename std::enable_if<vf_has_allocator_type<T>::value>::type vf_append(cetl::VariableLengthArray<T, A>& v) { v.emplace_back(typename T::allocator_type(v.get_allocator())); }
+template <class T, class A> void load(In& in, cetl::VariableLengthArray<T, A>& v) { std::size_t n = static_cast<std::size_t>(in.next()); v.clear(); if (n > v.max_size()) { std::fprintf(stderr, "ERROR: vf: the container as built by the generated constructor refuses a count within the DSDL capacity (max_size=%zu count=%zu)\n", v.max_size(), n); std::abort(); } for (std::size_t i = 0; i < n; i++) { vf_append(v); load(in, v.back()); } }
+template <class A> void load(In& in, cetl::VariableLengthArray<bool, A>& v) { std::size_t n = static_cast<std::size_t>(in.next()); v.clear(); if (n > v.max_size()) { std::fprintf(stderr, "ERROR: vf: the container as built by the generated constructor refuses a count within the DSDL capacity (max_size=%zu count=%zu)\n", v.max_size(), n); std::abort(); } for (std::size_t i = 0; i < n; i++) v.push_back(in.next() != 0); }
+template <class T, class A> void dump(Out& o, const cetl::VariableLengthArray<T, A>& v) { o.put(v.size()); for (std::size_t i = 0; i < v.size(); i++) dump(o, v[i]); }
+template <class A> void dump(Out& o, const cetl::VariableLengthArray<bool, A>& v) { o.put(v.size()); for (std::size_t i = 0; i < v.size(); i++) o.put(v[i] ? 1U : 0U); }
+"""
 
 MINIVEC_OVERLOADS = f'#include "{MINIVEC}"  // universes without a variable-length array do not pull it in themselves\n' + r"""
 template <class T> void load(In& in, vf::minivec<T>& v) { std::size_t n = static_cast<std::size_t>(in.next()); v.clear(); for (std::size_t i = 0; i < n; i++) { v.emplace_back(); load(in, v.back()); } }
